@@ -2,7 +2,6 @@ package validator
 
 import (
 	"bytes"
-	"reflect"
 	"sort"
 	"strings"
 
@@ -231,7 +230,14 @@ func checkConstraint(constr constraint.Constraint, value jbytes.Bytes) (b bool) 
 	case *constraint.Enum:
 		ct.Validate(value)
 		return true
+	case constraint.LiteralValidator:
+		// The formats (email, uri, uuid, date, datetime) and const judge the
+		// text of a string like the rules above.
+		ct.Validate(value)
+		return true
 	default:
-		panic(errors.Format(errors.ErrUnknownRule, reflect.TypeOf(constr)))
+		// Rules that say nothing about the text of a string (type, optional,
+		// nullable, ...).
+		return true
 	}
 }
